@@ -496,6 +496,48 @@ def r4_6(ctx, rc):
     apply_rules(ctx, rc)
 
 
+def r4_7(ctx, rc):
+    """Knowledge that a directory of the previous build is (maybe) removed
+    is never dropped wholesale: outside the constructor the removed sets of
+    BuildDirs are only changed element-wise.  (Clearing them when one
+    output fails makes every stale directory that was already confirmed
+    removed visible again.)"""
+    prog = ctx.prog
+    sets = ('_removed_dirs', '_maybe_removed_dirs', '_removed_files')
+    cls = ctx.R.cls('BuildDirs')
+    n = 0
+    for m in cls.methods.values():
+        if m.name == '__init__':
+            continue
+        for node in ast.walk(m.node):
+            bad = None
+            if isinstance(node, ast.Call) and isinstance(
+                    node.func, ast.Attribute) and node.func.attr in (
+                        'clear', 'difference_update', 'intersection_update')\
+                    and isinstance(node.func.value, ast.Attribute) and \
+                    node.func.value.attr in sets:
+                bad = node.func.value.attr
+            if isinstance(node, ast.Assign):
+                for t in node.targets:
+                    if isinstance(t, ast.Attribute) and t.attr in sets:
+                        bad = t.attr
+            if bad:
+                n += 1
+                rc.violation(
+                    'removed-set-dropped | %s | %s' % (m.qualname, bad),
+                    '%s drops %s wholesale: directories of the previous '
+                    'build that were already found to be virtually removed '
+                    'become visible again' % (m.qualname, bad),
+                    prog.loc(m, node), key='wholesale %s in %s' % (
+                        bad, m.qualname))
+    for sname in sets:
+        if not ctx.H._has_attr_store('BuildDirs', sname):
+            raise AnalysisError('BuildDirs.%s vanished' % sname)
+    if n == 0:
+        rc.ok({'sets': list(sets), 'wholesale_updates': 0},
+              key='removed sets only change element-wise')
+
+
 RULES = [
     ('R4.1', 'exists == is_file or is_dir (abstract evaluation)', r4_1),
     ('R4.2', 'one kernel decides the type of a path', r4_2),
@@ -503,4 +545,5 @@ RULES = [
     ('R4.4', 'error classes are chosen by virtual predicates', r4_4),
     ('R4.5', 'atomic appearance of outputs', r4_5),
     ('R4.6', 'reused subtrees reserve only successful outputs', r4_6),
+    ('R4.7', 'removed-directory knowledge is never dropped wholesale', r4_7),
 ]
